@@ -119,6 +119,12 @@ def build_pool(ctx, n_real, n_synth):
         for ltv in (1, 2, 3, 101, 0):
             damaged.append({'id': 'r:%s-l%d' % (name, ltv), 'hex': O.mk_message(ids, 64, 25, 98, 0, ltv, pattern=True).hex(),
                             'kind': 'register'})
+    # centre 98 with a local table version that is NOT bundled (4, 7: falls back to the master tables) and with bundled ones:
+    # what was found out about one local version says nothing about another
+    for name, ids in [('xunb-8201', [1001, 8201, 1002, 12101]), ('xunb-1211', [1211, 2201, 12001]), ('xunb-wmo', [1001, 1002, 12001])]:
+        for ltv in (4, 1, 7, 101):
+            damaged.append({'id': 'r:%s-l%d' % (name, ltv), 'hex': O.mk_message(ids, 64, 25, 98, 0, ltv, pattern=True).hex(),
+                            'kind': 'register'})
     # the SAME descriptor list, master tables and local table VERSION from different originating centres (98 has
     # local tables bundled, 7 / 34 / 0 have none): the choice of local tables depends on the centre too
     for name, ids in [('xctr-1192', [1001, 1192, 12001]), ('xctr-wmo', [1001, 1002, 12001]), ('xctr-8201', [8201, 12101])]:
@@ -180,7 +186,7 @@ def gen_history(rng, item_ids, n_ops, limit, refs):
         pairs = [(a, a[:-1] + 'b') for a in item_ids if a.startswith('r:') and a.endswith('-a') and a[:-1] + 'b' in item_ids]
         fams = {}
         for a in item_ids:
-            if a.startswith('r:xver-') or a.startswith('r:xloc-') or a.startswith('r:xctr-'):
+            if a.startswith('r:xver-') or a.startswith('r:xloc-') or a.startswith('r:xctr-') or a.startswith('r:xunb-'):
                 fams.setdefault(a.rsplit('-', 1)[0], []).append(a)
         fams = [v for v in fams.values() if len(v) >= 2]
         if r < 0.10 and fams:
@@ -367,6 +373,13 @@ def run(ctx):
         for i in rng.sample(wired, min(3, len(wired))):
             seq = ['wire', rng.choice(['nested', 'nestedtext', 'query']), 'wire', rng.choice(['nested', 'nestedtext', 'query']), 'nested']
             ops.insert(rng.randrange(len(ops) + 1), {'op': 'decode+observe', 'item': i, 'slot': rng.randrange(len(CACHE_MAXES)), 'seq': seq})
+        for nm in ('xunb-8201', 'xunb-1211'):
+            a, b2 = 'r:%s-l%d' % (nm, rng.choice([4, 7])), 'r:%s-l%d' % (nm, rng.choice([1, 101]))
+            if a in ids and b2 in ids:
+                slot_ = rng.randrange(len(CACHE_MAXES))
+                pos = rng.randrange(len(ops) + 1)
+                ops[pos:pos] = [{'op': 'decode', 'item': a, 'slot': slot_},
+                                {'op': 'decode+observe', 'item': b2, 'slot': rng.randrange(len(CACHE_MAXES)), 'seq': ['values', 'flat']}]
         for op in ops:
             if op['op'] == 'decode+observe':
                 op['path'] = refs[op['item']].get('path', '001001')
